@@ -105,6 +105,8 @@ impl<I: ExactSizeIterator> Iterator for UserIter<I> {
 }
 impl<I: ExactSizeIterator> ExactSizeIterator for UserIter<I> {
     fn len(&self) -> usize {
+        // `len()` of the replacement iterator is user code too
+        reg::user_call("repl-len");
         (self.inner.len() as isize + self.delta).max(0) as usize
     }
 }
